@@ -48,6 +48,11 @@ type ChanSpec struct {
 	Mode    string `json:"mode"`    // close: receivers run until close | counted: receivers take a quota
 	CloseBy string `json:"closeby"` // builtin | method
 	Payload string `json:"payload"` // int | str
+	// MarkEvery k > 0: after every k-th identified message each sender also sends a bare falsy
+	// "marker" (its Gor.Mark: nil, 0, "", false, [] or {}); the kinds differ between the senders of
+	// one channel, so a received marker still says whose it is. Receivers that use `<-c` /
+	// c.receive() then stop by count (a received nil is a value here, not the end).
+	MarkEvery int `json:"mark_every,omitempty"`
 }
 
 type Gor struct {
@@ -62,6 +67,7 @@ type Gor struct {
 	Ret   string `json:"ret"`   // senders: list|int|str|errval|raise
 	Lag   int    `json:"lag"`   // yields before the first channel operation
 	Via   bool   `json:"via,omitempty"` // started by the launcher chain, not by the main flow
+	Mark  string `json:"mark,omitempty"` // senders on a channel with markers: nil | zero | empty | false | list | map
 }
 
 func (g Gor) iter() bool { return g.Style == "range" || g.Style == "rangekv" || g.Style == "in" }
@@ -188,6 +194,47 @@ func genScenario(r *mon.Rand, idx int, thorough bool) Scenario {
 			}
 			s.Gors = append(s.Gors, g)
 		}
+		// bare nil / falsy markers among the messages (own stream: the other choices stay what they were)
+		rm := r.Split(fmt.Sprintf("marks%d", c))
+		if !s.Stamped && cs.N >= 2 && rm.Chance(2, 5) {
+			cs.MarkEvery = mon.Pick(rm, []int{1, 2, 3, 5})
+			if cs.MarkEvery > cs.N {
+				cs.MarkEvery = cs.N
+			}
+			kinds := []string{"nil", "zero", "empty", "false", "list", "map"}
+			perm := rm.Perm(len(kinds))
+			nilAt := rm.Intn(S) // one sender of the channel always sends nil
+			k := 0
+			plain := false
+			first := len(s.Gors) - S - R
+			for i := first; i < len(s.Gors); i++ {
+				g := &s.Gors[i]
+				if g.Role == "send" {
+					if g.ID-1 == nilAt {
+						g.Mark = "nil"
+					} else {
+						for kinds[perm[k%len(perm)]] == "nil" {
+							k++
+						}
+						g.Mark = kinds[perm[k%len(perm)]]
+						k++
+					}
+				} else if !g.iter() {
+					plain = true
+				}
+			}
+			if plain {
+				cs.Mode = "counted"
+			}
+			if cs.Mode == "counted" {
+				q := splitQuota(rm, S*(cs.N+cs.N/cs.MarkEvery), R)
+				for i := first; i < len(s.Gors); i++ {
+					if g := &s.Gors[i]; g.Role == "recv" {
+						g.Quota = q[g.ID-1]
+					}
+				}
+			}
+		}
 		s.Chans = append(s.Chans, cs)
 	}
 	s.Order = r.Perm(len(s.Gors))
@@ -299,8 +346,12 @@ func (s *Scenario) multiIter(ch int) bool {
 }
 
 func (s *Scenario) shape(ch int) string {
-	return fmt.Sprintf("send=%s:recv=%s:cap=%s:%s", styleSet(s, s.gorsOf(ch, "send")), styleSet(s, s.gorsOf(ch, "recv")),
-		capClass(s.Chans[ch].Cap), s.Chans[ch].Mode)
+	mk := ""
+	if s.Chans[ch].MarkEvery > 0 {
+		mk = ":markers"
+	}
+	return fmt.Sprintf("send=%s:recv=%s:cap=%s:%s%s", styleSet(s, s.gorsOf(ch, "send")), styleSet(s, s.gorsOf(ch, "recv")),
+		capClass(s.Chans[ch].Cap), s.Chans[ch].Mode, mk)
 }
 
 // distinctKey: (topology, buffer, styles, forms, GOMAXPROCS) of one channel group.
@@ -575,6 +626,26 @@ func (s *Scenario) renderBody(b *sb, i int) {
 		}
 		st("sr", "v")
 		b.ln("sent += 1")
+		if cs.MarkEvery > 0 && g.Mark != "" {
+			// a bare falsy marker between the identified messages: a value like any other
+			lit := map[string]string{"nil": "nil", "zero": "0", "empty": "\"\"", "false": "false", "list": "[]", "map": "{}"}[g.Mark]
+			if cs.MarkEvery == 1 {
+				b.ln("mk := %s", lit)
+			} else {
+				b.ln("if i %% %d == %d {", cs.MarkEvery, cs.MarkEvery-1)
+				b.ind++
+				b.ln("mk := %s", lit)
+			}
+			if g.Style == "method" {
+				b.ln("%s.send(mk)", c)
+			} else {
+				b.ln("%s <- mk", c)
+			}
+			if cs.MarkEvery != 1 {
+				b.ind--
+				b.ln("}")
+			}
+		}
 		s.yieldStmt(b, g, "i")
 		b.ind--
 		b.ln("}")
@@ -608,7 +679,9 @@ func (s *Scenario) renderBody(b *sb, i int) {
 			st("rc", "nil")
 			b.ln("v := %s", recv)
 			st("rr", "v")
-			if counted {
+			if counted && cs.MarkEvery > 0 {
+				b.ln("got.append(v)") // nil is a value on this channel; the receiver stops by count
+			} else if counted {
 				b.ln("if v == nil {")
 				b.ln("  nils += 1")
 				b.ln("  if nils > 2 { break }")
